@@ -738,7 +738,7 @@ def _collect(registry: Registry, c: Contract) -> dict:
     mod = fnode = None
     setups = c.setups or [('default', lambda h: {'args': []})]
     for label, setup in setups:
-        lbl = c.name if label in ('setup', 'default', '_', '<lambda>') else f'{c.name}[{label}]'
+        lbl = c.name if label in ('setup', 'default', '_', '<lambda>', 'wrapped') else f'{c.name}[{label}]'
         obs, n, unsup, meta = run_paths(registry, c, lbl, setup)
         all_obs.extend(obs)
         unsupported.extend(unsup)
@@ -751,7 +751,7 @@ def _collect(registry: Registry, c: Contract) -> dict:
     import z3 as _z3
     from .symexec import Obligation
     for label, _ in setups:
-        lbl = c.name if label in ('setup', 'default', '_', '<lambda>') else f'{c.name}[{label}]'
+        lbl = c.name if label in ('setup', 'default', '_', '<lambda>', 'wrapped') else f'{c.name}[{label}]'
         ends = [o for o in all_obs if o.kind == 'cover' and o.name in (f'{lbl}.return_reachable', f'{lbl}.end_reachable')]
         if not ends and not getattr(c, 'may_not_return', False):
             all_obs.append(Obligation(f'{lbl}.return_reachable', [_z3.BoolVal(False)], _z3.BoolVal(False), 0,
